@@ -141,3 +141,45 @@ func VH_C02_RestartPrecommit() {
 	verifrt.Reach("C02-restart-precommit:continued")
 	e.finish()
 }
+
+// VH_C02_RestartLateProposal: a scripted history across the three kinds of action in one round.
+// The proposal timer elapses and the prevote is recorded and released; the strategy's own
+// proposal arrives late in the same round and is recorded too (optionally the precommit after a
+// prevote-delay path is skipped: the script stays in round 0); the process dies; the new process
+// resumes the round, its proposal timer elapses again and the strategy answers again with any
+// hash. Every record of the round has to survive the later saves, so nothing is signed twice.
+func VH_C02_RestartLateProposal() {
+	vhOpts()
+	e := vhNewSM(true)
+	e.symEntrances = 0
+	e.entrancePHs = 0
+	e.ownPHInRestart = true
+	e.viewsLeft = 0
+	if !e.start() {
+		return
+	}
+	e.check(vhC02)
+	script := []int{evTimer, evPrevoteAnswer, evProposal}
+	if verifrt.Choose("proposal-before-prevote", 2) == 1 {
+		script = []int{evProposal, evTimer, evPrevoteAnswer}
+	}
+	for _, k := range script {
+		if !e.step([]int{k}) {
+			return
+		}
+		e.check(vhC02)
+	}
+	verifrt.Reach("C02-late-proposal:prevote-and-proposal-recorded")
+	if !e.restart() {
+		return
+	}
+	e.check(vhC02)
+	for _, k := range []int{evTimer, evPrevoteAnswer, evProposal} {
+		if !e.step([]int{k}) {
+			break
+		}
+		e.check(vhC02)
+	}
+	verifrt.Reach("C02-late-proposal:second-life-ran")
+	e.finish()
+}
